@@ -16,11 +16,7 @@ NOTE_M = ('Trusted: Lean kernel (axioms propext, Classical.choice, Quot.sound on
 
 CLAIMS = {
  'C01': (M, 'proof',
-  'Theorems: Reed-Solomon decoding from any k distinct symbols returns exactly the encoded source symbols (both fields, all 1<=k<=n<=2^m-1); '
-  'the LDPC part is carried by the closure theorem of C04 and the solver theorems of C03 (value-level soundness of the LDPC models is '
-  'tied by the byte-exact oracle). The models are run against the real library on every receive set for small n, '
-  'both APIs, with callbacks, and sampled large blocks; the direct oracle compares every non-NULL entry of of_get_source_symbols_tab with '
-  'the encoded symbol byte for byte.',
+  'Theorems: Reed-Solomon decoding from any k distinct symbols returns exactly the encoded source symbols (both fields, all 1<=k<=n<=2^m-1); Gaussian-elimination stage of LDPC/2D decoding: whatever the solver model returns is the transmitted block (C01_ml_sound, from the soundness/uniqueness theorem of the solver). The set-level behaviour of the iterative decoder is the closure theorem of C04; its value-level soundness is not a theorem and is covered by the byte-exact oracle. The models are run against the real library on every receive set for small n, both APIs, with callbacks, and sampled large blocks; the direct oracle compares every non-NULL entry of of_get_source_symbols_tab with the encoded symbol byte for byte.',
   'Lean 4 theorems over hand model + differential correspondence + byte-exact oracle', 'DESIGN.md section 4, C01'),
  'C02': (M, 'proof',
   'Theorems (Mathlib Lagrange interpolation over Field instances built from the bit-level multiplication): the model generator is the '
@@ -29,10 +25,7 @@ CLAIMS = {
   'compared with the model; decoder correspondence on all k-subsets for small n and sampled up to n=255/15.',
   'Lean 4 theorems (Lagrange/MDS) + exhaustive generator correspondence', 'DESIGN.md section 4, C02'),
  'C03': (M, 'proof',
-  'Theorems: success of the solver model depends on the coefficient matrix only and equals the full-column-rank test on the bare matrix (so the outcome is a function of the '
-  'received set only, whatever the order, API or payload). '
-  'Tie: of_finish_decoding on the real library vs the model and vs an independent GF(2) rank oracle over loss patterns concentrated where '
-  'iterative decoding fails.',
+  'Theorems over the solver model transliterated from of_ml_tool.c (forward elimination with row exchange, backward substitution), for any p x q system with p >= q and symbols in any XOR-like structure: C03_solve_iff_full_rank (success <=> the only 0/1 kernel vector of the coefficient matrix is zero, with a constructive kernel vector on failure), C03_solve_unique / C03_solve_sound (the answer is the only assignment that can satisfy the equations, and does satisfy all of them when the system is consistent), C03_success_is_rank_test (the outcome depends on the matrix only: not on payloads, order or API). The simplification step before elimination is modelled and tied by correspondence. Tie: of_finish_decoding on the real library vs the model and vs an independent GF(2) rank oracle over loss patterns concentrated where iterative decoding fails.',
   'Lean 4 theorems over the elimination model + rank oracle on the real decoder', 'DESIGN.md section 4, C03'),
  'C04': (M, 'proof',
   'Theorem C04_eq: for every well-formed matrix and every finite submission sequence (any order, duplicates), the set known to the '
@@ -93,15 +86,10 @@ CLAIMS = {
   'and an integer oracle.',
   'Lean 4 theorems over per-run translation + differential run', 'DESIGN.md section 4, C20'),
  'C17': (M, 'proof',
-  'Theorems: the sparse-matrix model (sorted duplicate-free entry set) satisfies find<->membership, idempotent insert, sorted exact '
-  'row/column traversals, delete/clear/copy/copyrows/copycols/conversion specs for every operation sequence (refinement to the set '
-  'model). Tie: generated operation sequences on real matrices (all traversals and find for every cell after each operation, '
-  'exhaustive short sequences on small matrices, random long ones with recycled entries) under ASan/LSan.',
+  'Theorems over a model that keeps what the C structure keeps (traversal order of every row and every column, entry pool counters): the invariant (sorted rows and columns, row/column consistency, bounds, free + used = 1024 x blocks) is preserved by EVERY operation sequence (C17_run_inv); find (last-of-row, last-of-column, parallel scan) <=> membership; idempotent insert; delete; clear; copy, copyrows, copycols, copy_filled_matrix specifications. Tie: generated operation sequences on real matrices (all traversals forwards and backwards, find on every cell, pool counters after each mutation; every sequence up to length 4/5 over a 12-operation alphabet; random long ones with recycled entries and several pool blocks; sparse<->dense conversions on widths spanning several words) under ASan/LSan, compared with the model and with a Python set oracle.',
   'Lean 4 refinement proof (list model -> set) + operation-sequence correspondence', 'DESIGN.md section 4, C17'),
  'C18': (M, 'proof',
-  'Theorems: packed-word get/set/flip equal the bit-matrix model for every column count, translated popcount helpers equal the bit count '
-  '(per run), solver model returns the unique solution iff full column rank. Tie: every exported dense operation on dimensions across '
-  'word boundaries vs the model; solver on all small 0/1 systems with every NULL pattern of right-hand sides and random larger systems.',
+  'Theorems: the packed-word operations (get, set, flip, clear, xor_rows, copy, copyrows) equal the bit-matrix operation for every dimension and preserve the representation invariant; of_hweight32_naive (translated each run) equals the bit count; the solver theorems of C03 (unique solution iff full column rank, failure otherwise). PARTIAL: of_popcount_3 and of_hweight32 are proved only on words with a single non-zero byte lane and compared with the definition on boundary and random words every run; copycols and the weight functions are tied by correspondence. Tie: every exported dense operation on dimensions across word boundaries vs the model and a Python bit-matrix oracle; solver on all 0/1 systems with p,q<=3 with every NULL pattern of the right-hand sides and random systems up to 40x40.',
   'Lean 4 theorems (bit-matrix, solver) + exhaustive small-system correspondence', 'DESIGN.md section 4, C18'),
  'C08': (M, 'proof',
   'Partial by nature: theorem over the allocation-ledger model (what the application owns after release is exactly the library-allocated '
@@ -116,14 +104,10 @@ CLAIMS = {
   'ASan on protocol-conforming histories at limit parameters and early release after every prefix.',
   'Lean 4 frame/bounds theorems + sanitizer-observed limit and prefix sweep', 'DESIGN.md section 4, C07'),
  'C12': (M, 'proof',
-  'Theorem: in the world model an operation on one session leaves every other session unchanged and its own result depends on the global '
-  'state only through the PRNG seed, which valid parameters overwrite (C05) — so any interleaving projects to the solo run. Tie: 2-6 '
-  'sessions of all codecs interleaved at random and each replayed alone on the real library; all observation lines must be identical.',
+  'Theorems over the world model (global PRNG state + table of sessions): a call on one session leaves every other session unchanged; its answer and its effect on its own session do not depend on the other sessions or on the global PRNG state (valid LDPC parameters overwrite it, C05); C12_projection: in ANY interleaving the answers to a session (and its final state) are those of its calls run alone. Tie: 2-6 sessions of all codecs interleaved at random, all interleavings of two short histories, groups sharing (k, n-k) across codecs and fields, each session also replayed alone on the real library; every observation line must be identical.',
   'Lean 4 locality/projection theorem + interleaved-vs-solo differential run', 'DESIGN.md section 4, C12'),
  'C16': (M, 'proof',
-  'Theorems: accepted (k,r) iff a factorisation d*l=k with d+l=r is found; the model matrix is the product single-parity code (each '
-  'source in exactly one row and one column check, each check its own repair); single loss always recovered. Tie: every accepted '
-  'configuration, all receive patterns (sampled for the largest), both APIs, finish, release under LSan.',
+  'Theorems: acceptance <=> a product shape exists, and for EVERY accepted configuration (kernel evaluation over the whole finite domain k<=16, n<=24) the matrix is the D x L product single-parity code, well formed, staircase shaped, covering every symbol; the encoder model satisfies every check; any single loss is in the peeling closure; the streaming decoder on these matrices is the peeling closure (C04 instantiated). Tie: the whole parameter grid, the real matrix of every accepted configuration, all receive patterns for n<=13 and sampled ones above through both APIs then finish, release after every prefix, on the real library (after four repairs of the 2D codec).',
   'Lean 4 theorems over 2D model + exhaustive configuration correspondence', 'DESIGN.md section 4, C16'),
 }
 
